@@ -189,3 +189,15 @@ Lemma c04_1_witness :
   /\ set_host false hs_hp hs_hp hs_hd w_c04_1 None
      = Some (mkUrl [97; 58; 63; 113] 1 2 2 2 HI_None None 2 (Some 2) None, SOk).
 Proof. vm_compute. repeat split; reflexivity. Qed.
+
+(* finding F-C04-3 (with F-C02-4): set_host never panics on "a://h:80/", but set_host(Some "") leaves "a://:80/",
+   a record outside wf_b, on which password() panics in both configurations *)
+Lemma c04_3_witness :
+  wf_b hs_w1 = true /\ known_c04_1 hs_w1 = false
+  /\ exists u', set_host true hs_hp hs_hp hs_hd hs_w1 (Some []) = Some (u', SOk)
+     /\ ser u' = [97; 58; 47; 47; 58; 56; 48; 47] /\ wf_b u' = false
+     /\ password true u' = None /\ password false u' = None.
+Proof.
+  split; [vm_compute; reflexivity|]. split; [vm_compute; reflexivity|]. eexists. split; [vm_compute; reflexivity|].
+  vm_compute. repeat split; reflexivity.
+Qed.
